@@ -210,6 +210,9 @@ func NewEnv(g *groups.Info, b Binding, res *core.Result, prop string) (*Env, err
 		e.pow[1] = inv
 		e.pow[0] = new(big.Int).Mod(new(big.Int).Mul(inv, inv), q)
 	}
+	if g.ScalarOnly {
+		return e, nil
+	}
 	// atoms
 	if g.CanBase {
 		e.B = g.NewPoint().Base()
@@ -386,6 +389,10 @@ func (e *Env) Replay(bh Behaviour, bhID string) int {
 		if strings.HasPrefix(st.Op, "p.") {
 			usesPoints = true
 		}
+	}
+	if usesPoints && g.ScalarOnly {
+		e.Res.Skip("scalar-only-group")
+		return 0
 	}
 	if usesPoints {
 		for _, n := range pRegs {
